@@ -83,9 +83,11 @@ mainLoop:
 			//  because ListWithCursor works only with the metabase.
 			lst, cursor, err := sh.ListWithCursor(defaultEvacuateBatchSize, c)
 			if err != nil {
-				if errors.Is(err, meta.ErrEndOfListing) || errors.Is(err, shard.ErrDegradedMode) {
+				if errors.Is(err, meta.ErrEndOfListing) {
 					continue mainLoop
 				}
+				// A shard without metabase (degraded mode) can not be listed, its
+				// objects stay where they are: report it instead of a silent success.
 				return count, err
 			}
 
